@@ -176,13 +176,14 @@ Definition rbe_eqb (x y : nat * nat * nat) : bool :=
 Definition ann_on_text (s : store) (t : nat * nat * nat) (a : ann) : bool :=
   existsb (rbe_eqb t) (ann_texts s a).
 
-(* text_join(" ") (one selection: its text) *)
-Fixpoint join_sp (l : list (list N)) : list N :=
+(* TextSelectionIterator::text_join(" "): the pieces with a space in front of each piece that
+   follows something (a piece that follows only empty pieces gets none) *)
+Fixpoint join_from (acc : list N) (l : list (list N)) : list N :=
   match l with
-  | [] => []
-  | [x] => x
-  | x :: l' => x ++ 32%N :: join_sp l'
+  | [] => acc
+  | x :: l' => join_from (match acc with [] => x | _ => acc ++ 32%N :: x end) l'
   end.
+Definition join_sp (l : list (list N)) : list N := join_from [] l.
 Definition ann_text (s : store) (a : ann) : list N :=
   join_sp (map (fun t => text_of (snd (fst t)) (snd t)) (ann_texts s a)).
 
@@ -676,13 +677,17 @@ Definition missing (s : store) (rt : rtype) (c : cst) : bool :=
 
 (* what happens when the constraints of a level are turned into an iterator, in the order they
    are written: the first failure decides *)
-Inductive levelres := LvOk | LvEmpty (* NotFoundError: nothing satisfies the level *) | LvInvalid.
+Inductive levelres := LvOk | LvEmpty (* NotFoundError: nothing satisfies the level *) | LvInvalid
+                    | LvPanic (* todo!("UNION not implemented yet") in init_state_textselections *).
+
+Definition is_union (c : cst) : bool := match c with CUnion _ => true | _ => false end.
 
 Fixpoint scan_level (s : store) (e : env) (rt : rtype) (primary : bool) (cs : list cst) : levelres :=
   match cs with
   | [] => LvOk
   | c :: r =>
-      if negb (supported rt primary c) then LvInvalid
+      if match rt with TText => is_union c | _ => false end then (if primary then LvPanic else LvInvalid)
+      else if negb (supported rt primary c) then LvInvalid
       else match c with
            | CUnion _ => scan_level s e rt false r     (* missing items and variables: the branch is skipped *)
            | _ => if negb (var_ok e c) then LvInvalid
@@ -726,6 +731,16 @@ Definition sat_impl (s : store) (e : env) (primary : bool) (c : cst) (it : item)
            | Some an, Some rh => on_res_rec s meta rh an
            | _, _ => false
            end
+  | IAnn a, CText t nocase =>
+      (* written first: find_text().annotations(), the annotations on an occurrence of the text *)
+      if primary then
+        match get_ann s a with
+        | Some an => existsb (fun rbe => let tx := text_of (snd (fst rbe)) (snd rbe) in
+                                        if nocase then list_eqb N.eqb (lower_str tx) (lower_str t)
+                                        else list_eqb N.eqb tx t) (ann_texts s an)
+        | None => false
+        end
+      else sat_base s e c it
   | IData d x, CAnn y true =>
       match r_ann s e y with
       | Some yh => match get_ann s yh with Some ya => reaches s (on_data d x) ya | None => false end
@@ -807,6 +822,29 @@ Definition stored_targets (s : store) (a : ann) : list nat :=
                                end) (a_leaves a) in
   map snd (if Nat.eqb (a_kind a) 3 then l else fold_left (fun acc x => ins_key x acc) l []).
 
+(* the known text selections of a resource, by begin position, then in the order they were made *)
+Definition known_texts (s : store) (r : nat) : list item :=
+  match get_res s r with
+  | Some rs =>
+      flat_map (fun p => flat_map (fun h => match nth_error (r_sels rs) h with
+                                            | Some rg => if Nat.eqb (fst rg) p then [IText r (fst rg) (snd rg)] else []
+                                            | None => []
+                                            end) (seq 0 (length (r_sels rs))))
+               (seq 0 (S (r_len rs)))
+  | None => []
+  end.
+Definition occurrences (s : store) (r : nat) (t : list N) (nocase : bool) : list item :=
+  match get_res s r with
+  | Some rs =>
+      let n := length t in
+      flat_map (fun b => if (b + n <=? r_len rs)
+                            && (if nocase then list_eqb N.eqb (lower_str (text_of b (b + n))) (lower_str t)
+                                else list_eqb N.eqb (text_of b (b + n)) t)
+                         then [IText r b (b + n)] else [])
+               (seq 0 (S (r_len rs)))
+  | None => []
+  end.
+
 Fixpoint src (s : store) (e : env) (rt : rtype) (c : cst) {struct c} : list item :=
   match c with
   | CUnion l =>
@@ -833,6 +871,32 @@ Fixpoint src (s : store) (e : env) (rt : rtype) (c : cst) {struct c} : list item
                        end
           | None => []
           end
+      | TText, CAnn y _ =>
+          match r_ann s e y with
+          | Some yh => match get_ann s yh with
+                       | Some ya => dedup_first (map (fun t => IText (fst (fst t)) (snd (fst t)) (snd t)) (ann_texts s ya))
+                       | None => []
+                       end
+          | None => []
+          end
+      | TText, CRes rr _ =>
+          (* TextResource::textselections(): every known selection of the resource, also those
+             no annotation refers to any more *)
+          match r_res s e rr with
+          | Some r => known_texts s r
+          | None => []
+          end
+      | TText, CRel v k =>
+          (* related_text(): the known selections of the resource that stand in the relation *)
+          dedup_first (flat_map (fun rf => filter (fun it => match it with
+                                                              | IText r b en => text_related s k [rf] (r, b, en)
+                                                              | _ => false
+                                                              end) (known_texts s (fst (fst rf))))
+                                (var_texts s e v))
+      | TText, CText t nocase =>
+          (* find_text(): every occurrence in every resource, annotated or not *)
+          flat_map (fun r => occurrences s r t nocase) (live_handles (ress s))
+      | TText, CTextVar v => match lookup e v with Some (IText r b en) => [IText r b en] | _ => [] end
       | _, _ => filter (sat_impl s e true c) (universe s rt)
       end
   end.
@@ -923,6 +987,7 @@ Section Machine.
             let e := env_of (m_stack m) in
             match scan_level s e (q_rt q) true (q_cs q) with
             | LvInvalid => (m, SInvalid)
+            | LvPanic => (m, SPanic)
             | LvEmpty => next_state fuel (mkm (m_stack m ++ [mkfr [] None false]) (m_path m))
             | LvOk => next_state fuel (mkm (m_stack m ++ [mkfr (level_impl s e (q_rt q) (q_cs q) (q_lim q)) None false])
                                            (m_path m))
@@ -979,10 +1044,20 @@ Section Machine.
     end.
 End Machine.
 
+(* no level delivers more candidates than this *)
+Definition level_bound (s : store) (rt : rtype) : nat :=
+  match rt with
+  | TText => S (length (universe s TText))
+             + fold_right (fun r acc => match get_res s r with
+                                        | Some rs => S (r_len rs) + length (r_sels rs) + acc
+                                        | None => acc
+                                        end) 0 (seq 0 (length (ress s)))
+  | _ => S (length (universe s rt))
+  end.
 Fixpoint row_bound (s : store) (q : query) : nat :=
   match q with
   | Q _ rt _ _ _ sub =>
-      S (length (universe s rt)) * match sub with Some sq => row_bound s sq | None => 1 end
+      level_bound s rt * match sub with Some sq => row_bound s sq | None => 1 end
   end.
 
 Definition run_machine (s : store) (q : query) : option (list (list item)) :=
@@ -1040,8 +1115,54 @@ Fixpoint limit_order (q : query) : bool :=
       (negb (is_none lim) && noncanon rt cs) || match sub with Some sq => limit_order sq | None => false end
   end.
 
+(* TEXT queries whose first constraint delivers text selections no annotation refers to *)
+Definition has_orphan_text (s : store) : bool :=
+  existsb (fun r => existsb (fun it => negb (existsb (item_eqb it) (universe s TText))) (known_texts s r))
+          (live_handles (ress s)).
+Fixpoint text_source (q : query) (f : cst -> bool) : bool :=
+  match q with
+  | Q _ rt cs _ _ sub =>
+      match rt, cs with
+      | TText, c :: _ => f c
+      | _, _ => false
+      end || match sub with Some sq => text_source sq f | None => false end
+  end.
+
+(* an ANNOTATION level whose first constraint (or one of the branches of a UNION) is TEXT "..." *)
+Fixpoint text_first (q : query) : bool :=
+  match q with
+  | Q _ rt cs _ _ sub =>
+      match rt with
+      | TAnn => match cs with
+                | CText _ _ :: _ => true
+                | _ => existsb (fun c => match c with
+                                         | CUnion l => existsb (fun c' => match c' with CText _ _ => true | _ => false end) l
+                                         | _ => false
+                                         end) cs
+                end
+      | _ => false
+      end || match sub with Some sq => text_first sq | None => false end
+  end.
+
+Fixpoint text_union (q : query) : bool :=
+  match q with
+  | Q _ rt cs _ _ sub =>
+      match rt with TText => existsb is_union cs | _ => false end
+      || match sub with Some sq => text_union sq | None => false end
+  end.
+
+(* some level whose candidates do not come in store order: the rows of an ADD come in that order *)
+Fixpoint any_noncanon (q : query) : bool :=
+  match q with
+  | Q _ rt cs _ _ sub => noncanon rt cs || match sub with Some sq => any_noncanon sq | None => false end
+  end.
+
 Definition known_class (s : store) (q : query) : nat :=
-  if negb (all_levels_ok q) then 2
+  if text_union q then 10
+  else if negb (all_levels_ok q) then 2
+  else if text_source q (fun c => match c with CText _ _ => true | _ => false end) then 8
+  else if text_first q then 9
+  else if text_source q (fun c => match c with CRes _ _ | CRel _ _ => true | _ => false end) && has_orphan_text s then 7
   else if optional_empty s [] q then 4
   else if indirect_q q && has_higher_order s then 3
   else if limit_order q then 5
